@@ -35,6 +35,7 @@ limit, and `len` bytes at the (masked) earlier position that equal the bytes at 
 `m` is the mask the code applies to the earlier position (`mask` or `mask as u32`). -/
 def CopyOK (data : ByteArray) (m cm curIx maxLength maxBackward : Nat) (o : SR) : Prop :=
   0 < o.distance ∧ o.distance ≤ maxBackward ∧ o.len ≤ maxLength ∧ o.lenXCode = 0 ∧
+  (4 ≤ maxLength → 2 ≤ o.len) ∧
   ∃ prev, o.distance = wsub curIx prev ∧ Agree data (prev &&& m) cm o.len
 
 /-! ### static dictionary -/
